@@ -91,6 +91,8 @@ pub struct Sim {
     /// set when the run must end at once with this (class, message); every later task poll aborts
     pub abort: Option<(String, String)>,
     pub log: Option<Vec<String>>,
+    /// counter behind the random-id seam (write ids of output files)
+    pub ids_issued: u64,
 }
 
 thread_local! {
@@ -132,6 +134,7 @@ pub fn install(policy: Policy, seed: u64, replay: Vec<u32>, step_budget: u64, lo
         blocking_used: false,
         abort: None,
         log: if log { Some(vec![]) } else { None },
+        ids_issued: 0,
     };
     SIM.with(|s| *s.borrow_mut() = Some(sim));
 }
@@ -184,6 +187,18 @@ pub fn request_abort(class: &str, msg: String) {
             s.abort = Some((class.to_string(), msg));
         }
     });
+}
+/// The random-id seam (datafusion_common::verif::set_random_id_hook): identifiers that the code
+/// would draw from the OS random generator are numbered per run instead.
+pub fn random_id_hook(_site: &'static str) -> Option<String> {
+    try_with(|s| {
+        s.ids_issued += 1;
+        format!("sim{:013}", s.ids_issued)
+    })
+}
+/// The iteration-order seam (datafusion_common::verif::set_order_hook): a seeded choice per call.
+pub fn order_hook(_site: &'static str, n: usize) -> usize {
+    try_with(|s| (s.rng.next() % n.max(1) as u64) as usize).unwrap_or(0)
 }
 pub fn steps() -> u64 {
     try_with(|s| s.steps).unwrap_or(0)
